@@ -22,11 +22,20 @@ ALIAS = {
 }
 
 
+def _quic_app(cfg):
+    """1-RTT datagrams of a QUIC connection: server data only, or client data followed by server data"""
+    if cfg.get("client_data"):
+        return {"n_app": 2, "data_len": 1, "sym_dirs": False, "dirs": [0, 1]}
+    return {"n_app": 1, "data_len": 1, "sym_dirs": False, "dirs": [1]}
+
+
 def configs(tier, seed):
     out = []
     aliases = list(ALIAS) if tier == "thorough" else list(ALIAS)[:3]
     for pair in ("tls+tls", "quic+quic", "tls+quic"):
         for ipv in ((4, 6) if tier == "thorough" else (4,)):
+            if ipv == 6 and pair != "tls+tls":
+                continue           # the address family only enters through Packet (C07); one transport pair with IPv6 is enough
             if pair == "tls+tls":
                 shapes = [None]
             elif tier == "quick":
@@ -40,16 +49,18 @@ def configs(tier, seed):
                 if tier == "quick" and pair == "tls+quic":
                     als = aliases[2:3]
                 for al in als:
-                    for pre in range(8 if pair != "tls+tls" else 4):
+                    cd = pair == "quic+quic" and ((tier == "thorough" and sh in ((0, 8), (0, 0)) and al in aliases[:3]) or (tier == "quick" and sh == (0, 8) and al == als[-1]))
+                    npre = 2 if pair == "tls+tls" else (4 if cd else 3)      # the first merge decisions are fixed per configuration (parallelism)
+                    for pre in range(1 << npre):
                         nm = "%s-v%d%s-%s-part%d" % (pair, ipv, "" if sh is None else "-cid%d.%d" % sh, al, pre)
-                        out.append({"harness": "pair", "name": nm, "pair": pair, "ipv": ipv, "cids": sh, "prefix": pre, "nprefix": 3 if pair != "tls+tls" else 2,
-                                    "alias": al})
+                        out.append({"harness": "pair", "name": nm + ("-client-data" if cd else ""), "pair": pair, "ipv": ipv, "cids": sh, "prefix": pre,
+                                    "nprefix": npre, "alias": al, "client_data": cd})
     return out
 
 
 def bounds(tier):
     return {"connections": 2, "tls": "abbreviated TLS 1.2 handshake + 1 application record per connection, several records per segment (4-5 segments each)",
-            "quic": "handshake + 1 one-RTT datagram per connection (6 datagrams each); connection-id lengths (client, server) in {(4,8),(0,8),(0,0)}",
+            "quic": "handshake + 1 one-RTT datagram from the server per connection (6 datagrams each), in the -client-data configurations a client datagram before it; connection-id lengths (client, server) in {(4,8),(0,8),(0,0)}",
             "interleavings": "all order-preserving merges (solver-chosen)", "key log": "either order of the two connections' entries",
             "endpoints": "every aliasing pattern: second connection's client ip / server ip / client port equal to or different from the first one's (incl. its client being the first one's server host), server ports from {443, 44330}"}
 
@@ -100,7 +111,7 @@ def _conn(kind, tag, cfg, src):
             frames.append((F.ethernet(d_[2], s_[2], ep.ipv == 6, F.ip_header(ep.ipv == 6, s_[0], d_[0], 6, len(sg)) + sg), 0, fs))
         return frames, keylog, meta, ep, "tcp"
     cc, sc = cfg["cids"] or (4, 8)
-    qcfg = {"suite": 0x1301, "offered": [0x1301], "odcid_len": 8, "c_cid_len": cc, "s_cid_len": sc, "n_app": 1, "data_len": 1, "sym_dirs": False, "dirs": [1]}
+    qcfg = {"suite": 0x1301, "offered": [0x1301], "odcid_len": 8, "c_cid_len": cc, "s_cid_len": sc, **_quic_app(cfg)}
     dgrams, keylog, meta = QS.build(qcfg, src)
     frames = []
     for d in dgrams:
@@ -326,7 +337,7 @@ def replay(cfg, viol):
             pk = [fr for fr, t in e2e.concrete_frames(ep, items, group=groups)]
         else:
             cc, sc = cfg["cids"] or (4, 8)
-            qcfg = {"suite": 0x1301, "offered": [0x1301], "odcid_len": 8, "c_cid_len": cc, "s_cid_len": sc, "n_app": 1, "data_len": 1, "sym_dirs": False, "dirs": [1]}
+            qcfg = {"suite": 0x1301, "offered": [0x1301], "odcid_len": 8, "c_cid_len": cc, "s_cid_len": sc, **_quic_app(cfg)}
             dgrams, keylog, meta = QS.build(qcfg, src)
             pk = [fr for fr, t in e2e.concrete_udp_frames(ep, dgrams)]
         conns.append({"pk": pk, "keylog": keylog, "ep": ep, "kind": kind})
